@@ -75,6 +75,10 @@ def enc(v):
         return [enc(x) for x in v]
     if isinstance(v, dict):
         return {"o": [[str(k), enc(x)] for k, x in v.items()]}
+    if hasattr(v, "model_dump") and type(v).__name__ == "FunctionDict":
+        # python-mode dumps keep FunctionDict objects under union members with a custom serialiser;
+        # the resolver treats both encodings of a function alike
+        return enc(v.model_dump())
     raise TypeError(f"cannot encode {type(v)}")
 
 
